@@ -84,4 +84,41 @@ theorem exists_collision (h : List UInt8 → UInt64) :
   have : (h (g v)).toNat = (h (g w)).toNat := by simpa [f] using congrArg Fin.val hfw
   exact UInt64.toNat_inj.mp this
 
+/-! ### MACToUint64 -/
+
+theorem len6 {a : List UInt8} (h : a.length = 6) : ∃ a0 a1 a2 a3 a4 a5, a = [a0, a1, a2, a3, a4, a5] := by
+  match a, h with
+  | [a0, a1, a2, a3, a4, a5], _ => exact ⟨a0, a1, a2, a3, a4, a5, rfl⟩
+
+theorem macKey6 (a0 a1 a2 a3 a4 a5 : UInt8) :
+    macKey [a0, a1, a2, a3, a4, a5] =
+      ((((a0.toNat * 256 + a1.toNat) * 256 + a2.toNat) * 256 + a3.toNat) * 256 + a4.toNat) * 256 + a5.toNat := by
+  simp [macKey, List.foldl]
+
+theorem macKey_injective_6 {a b : List UInt8} (ha : a.length = 6) (hb : b.length = 6)
+    (h : macKey a = macKey b) : a = b := by
+  obtain ⟨a0, a1, a2, a3, a4, a5, rfl⟩ := len6 ha
+  obtain ⟨b0, b1, b2, b3, b4, b5, rfl⟩ := len6 hb
+  rw [macKey6, macKey6] at h
+  have := a0.toNat_lt; have := a1.toNat_lt; have := a2.toNat_lt
+  have := a3.toNat_lt; have := a4.toNat_lt; have := a5.toNat_lt
+  have := b0.toNat_lt; have := b1.toNat_lt; have := b2.toNat_lt
+  have := b3.toNat_lt; have := b4.toNat_lt; have := b5.toNat_lt
+  have e0 : a0 = b0 := UInt8.toNat_inj.mp (by omega)
+  have e1 : a1 = b1 := UInt8.toNat_inj.mp (by omega)
+  have e2 : a2 = b2 := UInt8.toNat_inj.mp (by omega)
+  have e3 : a3 = b3 := UInt8.toNat_inj.mp (by omega)
+  have e4 : a4 = b4 := UInt8.toNat_inj.mp (by omega)
+  have e5 : a5 = b5 := UInt8.toNat_inj.mp (by omega)
+  subst e0 e1 e2 e3 e4 e5
+  rfl
+
+theorem macKey_short {a : List UInt8} (h : a.length < 6) : macKey a = 0 := by
+  simp [macKey, h]
+
+theorem macKey_take {a : List UInt8} (h : 6 ≤ a.length) : macKey (a.take 6) = macKey a := by
+  have h1 : (a.take 6).length = 6 := by rw [List.length_take]; omega
+  have h2 : ¬ a.length < 6 := by omega
+  simp [macKey, h1, h2, List.take_take]
+
 end Bng.CircuitKey
